@@ -85,7 +85,7 @@ func (e *Enc) strAt(id, off, i Term) Term {
 
 // isErrorSentinel: global prefix "G_<pkg>.<Name>" of a standard-library error sentinel.
 func isErrorSentinel(prefix string) bool {
-	for _, p := range []string{"G_io.EOF", "G_io.ErrUnexpectedEOF", "G_strconv.ErrRange", "G_strconv.ErrSyntax", "G_io.ErrShortWrite", "G_io.ErrNoProgress"} {
+	for _, p := range []string{"G_io.EOF", "G_io.ErrUnexpectedEOF", "G_strconv.ErrRange", "G_strconv.ErrSyntax", "G_io.ErrShortWrite", "G_io.ErrNoProgress", "G_reporter.ErrInvalidSource"} {
 		if prefix == p {
 			return true
 		}
